@@ -96,10 +96,6 @@ func oracleDQ(r *lib.Run, a []string, p []byte, index int, obs string) {
 	if err == nil {
 		r.Stat("oracle.dq.dnsmessage-ok", 1)
 		want := strings.TrimSuffix(q.Name.String(), ".")
-		if want == "" && !libOK {
-			r.Stat("oracle.dq.root-question-rejected", 1) // 0 labels: outside the quantified domain (1..127 labels); DecodeQuestion wants >= 6 bytes
-			return
-		}
 		if !libOK {
 			r.Viol("dq-rejects-valid-question", fmt.Sprintf("dnsmessage decodes question %q, library: %s", want, obs), replay)
 			return
